@@ -103,6 +103,7 @@ def eq_systems(tier, seed, precip=False):
         for p in PRECIP_POOL:
             pout.append([p])
             pout.append([p, "H2O = H+ + OH-"])
+            pout.append(["H2O = H+ + OH-", p])  # the phase-transfer reaction is not the first one
         return pout
     return out
 
